@@ -293,6 +293,14 @@ def run_check(prop, tier, seed):
 
     extra = focus.post(prop, tier, seed, plan, results, cases_file, workdir, stats)
     failing += extra.get("failing", [])
+    # E2: compile-and-run probes of this property (rustc's side of the property)
+    import probes
+    probe_failures, probe_cov = probes.run(prop, workdir)
+    probe_replays = {}
+    for b, why, src in probe_failures:
+        pid = "probe:" + b
+        probe_replays[pid] = (b, why, src)
+        failing.append((pid, "compile-and-run probe %s: %s" % (b, why)))
     kbreak += extra.get("kbreak", [])
     for line in extra.get("known", []):
         print(line)
@@ -308,7 +316,21 @@ def run_check(prop, tier, seed):
 
     n = 0
     rc = 0
-    if failing:
+    if failing and failing[0][0] in probe_replays:
+        cid, why = failing[0]
+        b, _, src = probe_replays[cid]
+        path = os.path.join(workdir, "replay_%s_%d.txt" % (prop, n))
+        with open(path, "w") as f:
+            f.write("# property %s\n# %s\n" % (prop, why))
+            f.write("# the failing input is the Rust program %s, compiled by rustc against %s\n" % (src, REPO))
+            f.write("# replay: cd %s && CARGO_NET_OFFLINE=true cargo build --offline --bin %s && target/debug/%s\n" % (probes.PROBES, b, b))
+            for ext in (".build.log", ".run.log"):
+                lp = os.path.join(workdir, b + ext)
+                if os.path.exists(lp):
+                    f.write("\n## %s\n%s" % (ext, open(lp).read()[-6000:]))
+        print("VIOLATION property=%s replay=%s %s" % (prop, path, why))
+        rc = 1
+    elif failing:
         cid, why = failing[0]
         dump = verbose_dump(cases_file, cid, workdir)
         path = write_replay(workdir, prop, n, list(by_id.get(origin(cid), (cid,))), dump, why + " (%d failing inputs in total)" % len(failing))
@@ -344,6 +366,7 @@ def run_check(prop, tier, seed):
             round(sum(1 for d in results.values() if d.get("tok") == "1") / max(1, sum(1 for d in results.values() if d.get("modelled") == "1")), 4),
     }
     coverage.update(extra.get("coverage", {}))
+    coverage["compile_and_run_probes"] = probe_cov
     level = "proof"
     if not names:
         # no theorem registered for this property (yet): what ran is the differential
@@ -361,6 +384,15 @@ def replay(prop, path):
         if line.startswith("CASE\t"):
             case = line.rstrip("\n").split("\t")[1:]
     if not case or len(case) < 4:
+        m = re.search(r"--bin (\S+) &&", open(path).read())
+        if m:
+            # a compile-and-run probe: rebuild it against the checkout and run it
+            import probes
+            fails, _ = probes.run(prop, os.path.dirname(os.path.abspath(path)))
+            fails = [f for f in fails if f[0] == m.group(1)]
+            for b, why, src in fails:
+                print("VIOLATION property=%s replay=%s %s: %s" % (prop, path, b, why))
+            return 1 if fails else 0
         print("no replayable case in", path)
         return 2
     ok, log = build_harness()
